@@ -14,7 +14,8 @@
    eval happened where S allows none. *)
 EXTENDS Naturals, Sequences, FiniteSets, TLC, Json
 
-Leaves  == {"num", "true", "none", "str", "bytes", "ellipsis", "name", "call", "attr", "fstr"}
+\* inf / imag / infimag: number literals whose arithmetic leaves the finite numbers (1e999, 2j, 1e999j)
+Leaves  == {"num", "inf", "imag", "infimag", "true", "none", "str", "bytes", "ellipsis", "name", "call", "attr", "fstr"}
 Open    == {"name", "call", "attr", "fstr"}                 \* leaves whose evaluation runs input code
 UnOps   == {"uadd", "usub", "invert", "not"}
 BinOps  == {"Add", "Sub", "Mult", "Div", "FloorDiv", "Mod", "Pow", "LShift", "RShift", "BitOr", "BitXor", "BitAnd", "MatMult"}
@@ -34,7 +35,7 @@ HasClosedBin(e) == CASE e[1] = "leaf" -> FALSE
                      [] e[1] = "bin"  -> Closed(e) \/ HasClosedBin(e[3]) \/ HasClosedBin(e[4])
 
 \* ---- M
-ConstLeaf(e) == e[1] = "leaf" /\ e[2] \in {"num", "true", "none"}
+ConstLeaf(e) == e[1] = "leaf" /\ e[2] \in {"num", "inf", "imag", "infimag", "true", "none"}
 \* the possible results of visiting e, each with the set of expressions evaluated on the way: <<result, evaluated>>
 RECURSIVE Visit(_)
 Visit(e) ==
@@ -50,6 +51,15 @@ Visit(e) ==
                      <<Un("usub", Leaf("num")), done \cup {node}>>}
                ELSE {<<node, done>>}
              : vr \in Visit(e[4])} : vl \in Visit(e[3])}
+
+\* ---- the second evaluation: the folder prints the value it computed and evaluates that text again, to compare it with the value
+\* classes of computed values
+ResultClasses == {"finite", "negative", "bool", "inf_float", "nan_float", "nonfinite_complex"}
+\* S: how the printer spells a value of the class: a literal, or - where the language has no literal - repr() text that spells NAMES
+\*    (nan; (nan+infj), (inf-infj) ... for a complex number with an infinite or nan part); 1e999 is the printer's literal for an infinite float
+TextClosed(c) == c \notin {"nan_float", "nonfinite_complex"}
+\* M: visit_BinOp returns before printing for a nan float, and (after the repair of D47) for a complex number with a non-finite part
+MEvaluatesText(c) == c \notin {"nan_float", "nonfinite_complex"}
 
 \* ---- cases
 Operands1 == {Leaf(k) : k \in Leaves} \cup {Un(o, Leaf(k)) : o \in UnOps, k \in Leaves}
